@@ -8,6 +8,7 @@ import (
 	"time"
 
 	"github.com/bytom/bytom/account"
+	"github.com/bytom/bytom/protocol"
 	"github.com/bytom/bytom/protocol/bc"
 	"github.com/bytom/bytom/protocol/bc/types"
 
@@ -32,6 +33,10 @@ type Point struct {
 	Std, Con    []*account.UTXO // raw records of the wallet store
 	Undecodable int
 	Expected    map[bc.Hash]*Exp
+
+	// PoolHeld: outputs created by transactions that the wallet still holds as unconfirmed although the block
+	// confirming them is attached (the wallet's mempool loop lags behind its block updater; see Session.PoolLag)
+	PoolHeld map[bc.Hash]bool
 }
 
 // Transition describes the walk for witnesses (the minimal history of the point).
@@ -68,6 +73,13 @@ type Session struct {
 	Restored map[bc.Hash]bool // wallet-owned outputs whose current record was (re)written by a detach
 	old      []*Wallet
 
+	// PoolLag: the wallet hears of a block's wallet-related transactions from the pool before the block arrives
+	// (Wallet.AddUnconfirmedTx, what its mempool loop does on MsgNewTx) and processes their removal from the
+	// pool (RemoveUnconfirmedTx on MsgRemoveTx) only after the next observation: the two loops of the wallet
+	// are independent goroutines, the mempool loop may lag behind the block updater by any amount.
+	PoolLag bool
+	pending []*types.Tx
+
 	Obs Observer
 }
 
@@ -77,7 +89,7 @@ func NewSession(c *ev.Case, e *Env, dir string, obs Observer) (*Session, error) 
 	if err != nil {
 		return nil, fmt.Errorf("node: %v", err)
 	}
-	s := &Session{C: c, Env: e, Node: nd, Dir: dir, Restored: map[bc.Hash]bool{}, Obs: obs}
+	s := &Session{C: c, Env: e, Node: nd, Dir: dir, Restored: map[bc.Hash]bool{}, Obs: obs, PoolLag: c.Index%2 == 1}
 	w, err := OpenWallet(e, nd, filepath.Join(dir, "wallet0"))
 	if err != nil {
 		nd.Destroy()
@@ -110,6 +122,21 @@ func classOf(err error) string {
 // Deliver hands a block to the node.  ok=false ends the history (inconclusive: the
 // positive control failed, nothing can be said about the wallet).
 func (s *Session) Deliver(b *chainkit.Blk) bool {
+	if s.PoolLag {
+		for _, tx := range b.B.Transactions[1:] {
+			related := false
+			for _, u := range chainkit.Outputs(tx) {
+				if s.W.Owner(u.Program) != nil {
+					related = true
+				}
+			}
+			if related {
+				s.W.W.AddUnconfirmedTx(&protocol.TxDesc{Tx: tx})
+				s.pending = append(s.pending, tx)
+				s.C.Count("pool_lag:transactions_heard_of_before_their_block", 1)
+			}
+		}
+	}
 	if _, err := s.Node.Chain.ProcessBlock(chainkit.CloneBlock(b.B)); err != nil {
 		s.C.Inconclusive("positive control failed: the node rejected harness block %s of history %s: %s", BlkName(b), s.Kind, classOf(err))
 		s.C.Count("harness_block_rejected", 1)
@@ -246,7 +273,20 @@ func (s *Session) Observe(step int, allowLag, restart, final bool) bool {
 		return false
 	}
 	c.Count("quiescent_points", 1)
+	if len(s.pending) > 0 && !restart {
+		p.PoolHeld = map[bc.Hash]bool{}
+		for _, tx := range s.pending {
+			for _, u := range chainkit.Outputs(tx) {
+				p.PoolHeld[u.ID] = true
+			}
+		}
+	}
 	s.Obs.At(p)
+	// the mempool loop catches up
+	for _, tx := range s.pending {
+		s.W.W.RemoveUnconfirmedTx(&protocol.TxDesc{Tx: tx})
+	}
+	s.pending = nil
 	return true
 }
 
@@ -538,6 +578,7 @@ func RunRollback(c *ev.Case, e *Env, dir string, obs Observer) {
 	s.old = append(s.old, s.W)
 	s.W = nw
 	s.Gen.W = nw
+	s.pending = nil // the unconfirmed set lives in memory
 	c.Count("wallet_restarts", 1)
 	if !s.Observe(step, false, true, true) {
 		return
